@@ -1195,6 +1195,18 @@ func mkForallAuto(bv *Term, vname string, srt Sort, body *Term) *Term {
 			return Forall([]*Term{j}, body2, p2...)
 		}
 	}
+	if len(pats) > 0 && srt == SInt {
+		// a body that relates a[off + k] to b[k] gets its trigger on b[k] only; instances reached
+		// through a[..] terms (a skolem index of a goal over a) need the re-indexed twin as well
+		if off := findOffsetIndex(bv, body); off != nil {
+			j := BVar(vname+"j", SInt)
+			body2 := Subst(body, map[*Term]*Term{bv: Sub(j, off)})
+			p2 := autoPatterns(j, body2)
+			if len(p2) > 0 {
+				return And(Forall([]*Term{bv}, body, pats...), Forall([]*Term{j}, body2, p2...))
+			}
+		}
+	}
 	if len(pats) == 0 && os.Getenv("GOWP_DEBUG_PAT") != "" {
 		fmt.Fprintf(os.Stderr, "no trigger: off=%v body=%.300s\n", findOffsetIndex(bv, body), body.String())
 	}
